@@ -8,6 +8,7 @@ import (
 	"os/exec"
 	"path/filepath"
 	"regexp"
+	"sort"
 	"strconv"
 	"strings"
 	"time"
@@ -77,8 +78,23 @@ func (m *modelReader) get(t Term) string {
 	// value is the last s-expr
 	e1 := sexprEnd(inner, 0)
 	val := strings.TrimSpace(inner[e1:])
-	m.pins = append(m.pins, Term{fmt.Sprintf("(= %s %s)", t.S, val), SBool})
+	if !strings.Contains(val, "!val!") {
+		m.pins = append(m.pins, Term{fmt.Sprintf("(= %s %s)", t.S, val), SBool})
+	}
 	return val
+}
+
+// satWith: is the failing query still satisfiable with the pins and one more assumption?
+func (m *modelReader) satWith(extra Term) bool {
+	m.n++
+	o2 := *m.o
+	o2.Hyps = append(append(append([]Term(nil), m.o.Hyps...), m.pins...), extra)
+	text := "(set-logic ALL)\n" + o2.BuildQuery() + "(check-sat)\n"
+	file := filepath.Join(m.solv.dir, fmt.Sprintf("ms%d.smt2", m.n))
+	os.WriteFile(file, []byte(text), 0o644)
+	defer os.Remove(file)
+	out := m.solv.spawn([]string{"z3-new", "-T:10", file}, 15*time.Second)
+	return strings.TrimSpace(strings.SplitN(out, "\n", 2)[0]) == "sat"
 }
 
 // queryWith rebuilds the query making sure the declarations needed by extra are present.
@@ -165,6 +181,29 @@ func (m *modelReader) extract(x *Exec, st *State, t types.Type, v Value, depth i
 		}
 		return cv
 	case IfaceV:
+		if t.String() == "reflect.Type" {
+			// choose one of the known element types for a reflect.Type input if the model allows it
+			ids := make([]int, 0, len(x.P.rtypeNames))
+			x.P.mu.Lock()
+			for id := range x.P.rtypeNames {
+				ids = append(ids, id)
+			}
+			x.P.mu.Unlock()
+			sort.Ints(ids)
+			for _, id := range ids {
+				bt, ok := basicByName[x.P.rtypeNames[id]]
+				if !ok {
+					continue
+				}
+				pin := Term{fmt.Sprintf("(= %s %d)", u.Val.S, id), SBool}
+				if m.satWith(pin) {
+					m.pins = append(m.pins, pin)
+					x.rtypeUsed[id] = bt
+					return &CV{Kind: "rtype", Dyn: bt, T: t}
+				}
+			}
+			return &CV{Kind: "iface", Nil: true, T: t}
+		}
 		tag, _ := parseSMTInt(m.get(u.Tag))
 		cv := &CV{Kind: "iface", Nil: tag == 0, T: t}
 		if wt := m.witnessFor(x, t); wt != nil && tag != 0 {
@@ -235,7 +274,14 @@ func (cv *CV) goExpr(q types.Qualifier) (string, error) {
 	case "bool":
 		return fmt.Sprintf("%s(%v)", ts, cv.Bool), nil
 	case "abs":
-		return "", fmt.Errorf("abstract element value %s (element type not interpreted)", cv.Abs)
+		// value of an abstract sort: the zero value is tried (the replay is validated on the real code anyway)
+		if b, ok := cv.T.Underlying().(*types.Basic); ok && b.Info()&types.IsString != 0 {
+			return ts + `("")`, nil
+		}
+		if b, ok := cv.T.Underlying().(*types.Basic); ok && b.Kind() == types.UnsafePointer {
+			return ts + "(nil)", nil
+		}
+		return fmt.Sprintf("%s(0)", ts), nil
 	case "slice":
 		if cv.Nil {
 			return fmt.Sprintf("%s(nil)", ts), nil
@@ -273,6 +319,8 @@ func (cv *CV) goExpr(q types.Qualifier) (string, error) {
 			fs = append(fs, fmt.Sprintf("%s: %s", st.Field(i).Name(), s))
 		}
 		return fmt.Sprintf("%s{%s}", ts, strings.Join(fs, ", ")), nil
+	case "rtype":
+		return fmt.Sprintf("reflect.TypeOf(%s)", zeroExpr(cv.Dyn)), nil
 	case "iface":
 		if cv.Nil {
 			return fmt.Sprintf("%s(nil)", ts), nil
@@ -286,8 +334,25 @@ func (cv *CV) goExpr(q types.Qualifier) (string, error) {
 	return "", fmt.Errorf("cannot render %s", cv.Kind)
 }
 
+func zeroExpr(t types.Type) string {
+	b, _ := t.Underlying().(*types.Basic)
+	switch {
+	case b == nil:
+		return "nil"
+	case b.Info()&types.IsString != 0:
+		return `""`
+	case b.Info()&types.IsBoolean != 0:
+		return "false"
+	case b.Kind() == types.UnsafePointer:
+		return "unsafe.Pointer(nil)"
+	}
+	return b.Name() + "(0)"
+}
+
 func (cv *CV) toJSON() interface{} {
 	switch cv.Kind {
+	case "rtype":
+		return "reflect.TypeOf(" + cv.Dyn.String() + ")"
 	case "int":
 		return cv.Int
 	case "bool":
@@ -439,7 +504,20 @@ func (P *Prog) runReal(pkgPath, pkgName, fname string, sig *types.Signature, arg
 	}
 	defer os.RemoveAll(tmp)
 	var sb strings.Builder
-	fmt.Fprintf(&sb, "package %s\n\nimport (\n\t\"encoding/json\"\n\t\"fmt\"\n\t\"os\"\n\t\"reflect\"\n\t\"testing\"\n)\n", pkgName)
+	extra := ""
+	joined := strings.Join(args, " ")
+	seen := map[string]bool{}
+	for _, pp := range P.prog.AllPackages() {
+		n, path := pp.Pkg.Name(), pp.Pkg.Path()
+		if n == pkgName || seen[n] || n == "reflect" || n == "fmt" || n == "os" || n == "testing" || n == "json" {
+			continue
+		}
+		if regexp.MustCompile(`\b`+regexp.QuoteMeta(n)+`\.[A-Za-z]`).MatchString(joined) && (strings.HasPrefix(path, "gorgonia.org/") || !strings.Contains(path, ".")) {
+			seen[n] = true
+			extra += fmt.Sprintf("\t%q\n", path)
+		}
+	}
+	fmt.Fprintf(&sb, "package %s\n\nimport (\n\t\"encoding/json\"\n\t\"fmt\"\n\t\"os\"\n\t\"reflect\"\n\t\"testing\"\n%s)\n", pkgName, extra)
 	sb.WriteString(replayDumper)
 	sb.WriteString("\nfunc TestGovcReplay(t *testing.T) {\n")
 	var names []string
@@ -536,6 +614,8 @@ func (b *concBuilder) build(st *State, cv *CV) Value {
 		return Scalar{x.decls.Const("lit_"+s+"_"+sanitize(fmt.Sprint(cv.Int)), s)}
 	case "bool":
 		return Scalar{BoolLit(cv.Bool)}
+	case "abs":
+		return Scalar{x.decls.Fresh("abs", sortOf(cv.T))}
 	case "slice":
 		elem := cv.T.Underlying().(*types.Slice).Elem()
 		if cv.Nil {
@@ -562,6 +642,8 @@ func (b *concBuilder) build(st *State, cv *CV) Value {
 			sv.Fields = append(sv.Fields, b.build(st, f))
 		}
 		return sv
+	case "rtype":
+		return x.rtypeValue(st, cv.Dyn)
 	case "iface":
 		if cv.Nil {
 			return IfaceV{IntLit(0), IntLit(0)}
@@ -887,7 +969,6 @@ func (x *Exec) groundHolds(st *State, t Term) bool {
 	return r.Result == "unsat"
 }
 
-
 func (m *modelReader) witnessFor(x *Exec, t types.Type) *Witness {
 	n, ok := t.(*types.Named)
 	if !ok || n.Obj().Pkg() == nil {
@@ -895,7 +976,6 @@ func (m *modelReader) witnessFor(x *Exec, t types.Type) *Witness {
 	}
 	return x.P.db.Witnesses[n.Obj().Pkg().Path()+"."+n.Obj().Name()]
 }
-
 
 // groundRefuted: the formula is definitely false on the concrete state (formulas that mention
 // state the replay does not reconstruct, e.g. package-level variables, are not refuted).
